@@ -267,20 +267,47 @@ func (p *p03) govBlock(txs ...pb.Transaction) ([]*pb.Receipt, error) {
 	return res.Receipts, nil
 }
 
-// changeRule drives chainW's master rule to another rule double through the governance flow.
-func (p *p03) changeRule(kind string) {
-	addrB, err := os.ReadFile(filepath.Join(p.dir, "rule-"+kind+".addr"))
-	if err != nil {
-		return
+// changeRule drives chainW's master rule to another rule double through the governance flow; with
+// approve=false the proposal is voted down, after which the old master rule has to decide again - also
+// when the rejected candidate ("happy": the built-in rule every chain has first in its rule list) would
+// accept what the master refuses.
+func (p *p03) changeRule(kind string, approve bool) {
+	addr := "0x00000000000000000000000000000000000000a2" // validator.HappyRuleAddr
+	if kind != "happy" {
+		addrB, err := os.ReadFile(filepath.Join(p.dir, "rule-"+kind+".addr"))
+		if err != nil {
+			return
+		}
+		addr = string(addrB)
 	}
 	ca := harness.ChainAdmin("chainW")
-	rcs, err := p.govBlock(p.world.BVM(ca, harness.AddrRule, "UpdateMasterRule", pb.String("chainW"), pb.String(string(addrB)), pb.String("reason")))
+	rcs, err := p.govBlock(p.world.BVM(ca, harness.AddrRule, "UpdateMasterRule", pb.String("chainW"), pb.String(addr), pb.String("reason")))
 	if err != nil || rcs[0].Status != pb.Receipt_SUCCESS {
 		p.w.Count("rule_change_refused", 1)
 		return
 	}
 	pid := harness.ProposalID(rcs[0])
+	was := p.rule["chainW"]
 	p.rule["chainW"] = "" // pending: no rule is 'available'
+	if !approve {
+		if _, err := p.world.VoteAll(pid, p.world.Votes, "reject"); err != nil {
+			return
+		}
+		// a rejected update leaves the appchain paused (frozen); its admin activates it again
+		p.rule["chainW"] = ""
+		rcs, err := p.govBlock(p.world.BVM(ca, harness.AddrAppchain, "ActivateAppchain", pb.String("chainW"), pb.String("reason")))
+		if err != nil || rcs[0].Status != pb.Receipt_SUCCESS {
+			p.w.Count("activation_after_rejected_rule_change_refused", 1)
+			return
+		}
+		if _, err := p.world.VoteAll(harness.ProposalID(rcs[0]), p.world.Votes, "approve"); err != nil {
+			return
+		}
+		p.rule["chainW"] = was
+		p.shape["rule-change-to-"+kind+"-rejected"] = true
+		p.w.Count("rule_changes_rejected", 1)
+		return
+	}
 	if _, err := p.world.VoteAll(pid, p.world.Votes, "approve"); err != nil {
 		return
 	}
@@ -380,8 +407,9 @@ func proof03Workload(args []string) int {
 				// rule history events, alone in their blocks
 				switch rng.Intn(14) {
 				case 0:
-					p.changeRule([]string{"never", "firstbyte"}[rng.Intn(2)])
-					p.blocks = append(p.blocks, "rule of chainW now "+p.rule["chainW"])
+					kind, approve := []string{"never", "firstbyte", "happy"}[rng.Intn(3)], rng.Intn(3) != 0
+					p.changeRule(kind, approve)
+					p.blocks = append(p.blocks, fmt.Sprintf("rule change of chainW to %s (approve=%v): now %s", kind, approve, p.rule["chainW"]))
 					continue
 				case 1:
 					if b > 12 {
